@@ -90,6 +90,8 @@ func (Engine) Generate(cfg simkit.RunConfig) (any, bool) {
 		return genWorkload(c2, genOpts{maxTxns: 6, pessRate: 0.4, faults: false, topo: true, backend: backend, asyncRate: async, onePCRate: onepc}), true
 	case "crash", "crashfaults":
 		return genCrash(c2, backend), true
+	case "lockretry":
+		return genLockRetry(c2, backend), true
 	case "stalelock":
 		return genStaleLock(c2, backend), true
 	case "faults":
@@ -267,6 +269,7 @@ func (Engine) Execute(t *testing.T, cfg simkit.RunConfig, scenario any) *simkit.
 				vs = append(vs, simkit.Violation{Property: cfg.Property, Class: "recovery-stuck", Sig: "janitor", Detail: fmt.Sprintf("locks remain after the recovery budget (ttl + %d resolver rounds): %v", 12, describeLocks(w))})
 			}
 			c.checkC01()
+			c.checkLockExclusion()
 			c.checkC03()
 			if gcRep != nil {
 				c.checkC14(sc.GC, gcRep)
